@@ -5,15 +5,17 @@ import (
 	"fmt"
 	"os"
 
+	"verifharness/internal/b2f"
 	"verifharness/internal/mbox"
 	"verifharness/internal/posrep"
 	"verifharness/internal/urlh"
 )
 
 var cmds = map[string]func([]string) int{
-	"mbox":   mbox.Main,
-	"posrep": posrep.Main,
-	"url":    urlh.Main,
+	"mbox":    mbox.Main,
+	"b2f-c01": b2f.MainC01,
+	"posrep":  posrep.Main,
+	"url":     urlh.Main,
 }
 
 func main() {
